@@ -169,7 +169,10 @@ def node_code(n: Node, accounts: dict) -> bytes:
                 body += [("PUSH", c.salt)]
             body += [("PUSHN", 2, len(ic)), ("PUSH", ioff)] + compile_expr(c.value) + [c.kind]
             # stack: addr.  flag := addr != 0 ; codesize ; call it and keep one word of its return data
-            body += ["DUP1", "ISZERO", "ISZERO", ("PUSH", base), "MSTORE"]
+            # (the return-data buffer after a creation: empty on success, the revert data of the init code otherwise)
+            body += ["RETURNDATASIZE", ("PUSH", 0x1F20), "MSTORE", ("PUSH", 0), ("PUSH", 0x1F40), "MSTORE",
+                     "RETURNDATASIZE", ("PUSH", 0), ("PUSH", 0x1F40), "RETURNDATACOPY"]
+            body += ["DUP1", "ISZERO", "ISZERO", ("PUSH", 0x1F20), "MLOAD", ("PUSH", 8), "SHL", "OR", ("PUSH", 0x1F40), "MLOAD", ("PUSH", 16), "SHL", "XOR", ("PUSH", base), "MSTORE"]
             body += ["DUP1", "EXTCODESIZE", ("PUSH", base + 32), "MSTORE"]
             body += [("PUSH", 32), ("PUSH", base + 64), ("PUSH", 0), ("PUSH", 0), ("PUSH", 0), "DUP6", ("PUSH", GAS), "CALL", "POP", "POP"]
             base += 64 + 32
@@ -289,7 +292,10 @@ def _root_with_epilogue(root: Node, accounts: dict, epi: list, total: int) -> by
             if c.kind == "CREATE2":
                 body += [("PUSH", c.salt)]
             body += [("PUSHN", 2, len(ic)), ("PUSH", ioff)] + compile_expr(c.value) + [c.kind]
-            body += ["DUP1", "ISZERO", "ISZERO", ("PUSH", base), "MSTORE"]
+            # (the return-data buffer after a creation: empty on success, the revert data of the init code otherwise)
+            body += ["RETURNDATASIZE", ("PUSH", 0x1F20), "MSTORE", ("PUSH", 0), ("PUSH", 0x1F40), "MSTORE",
+                     "RETURNDATASIZE", ("PUSH", 0), ("PUSH", 0x1F40), "RETURNDATACOPY"]
+            body += ["DUP1", "ISZERO", "ISZERO", ("PUSH", 0x1F20), "MLOAD", ("PUSH", 8), "SHL", "OR", ("PUSH", 0x1F40), "MLOAD", ("PUSH", 16), "SHL", "XOR", ("PUSH", base), "MSTORE"]
             body += ["DUP1", "EXTCODESIZE", ("PUSH", base + 32), "MSTORE"]
             body += [("PUSH", 32), ("PUSH", base + 64), ("PUSH", 0), ("PUSH", 0), ("PUSH", 0), "DUP6", ("PUSH", GAS), "CALL", "POP", "POP"]
             base += 64 + 32
